@@ -144,11 +144,13 @@ int h_mlock(const void *a, size_t n) {
     return rc;
 }
 int h_munlock(const void *a, size_t n) { (void) a; (void) n; return lock_outcome(); }
-int h_madvise(void *a, size_t, int) {
+int h_madvise(void *a, size_t n, int adv) {
+    if ((uintptr_t) a % M.P == 0 && M.find((uintptr_t) a)) (void) simos_real_madvise(a, n, adv); // advice is applied for real (it can have visible effects, e.g. across fork)
     // like the kernel: an unaligned or unmapped address is an error whatever the policy says
     if ((uintptr_t) a % M.P != 0) { errno = EINVAL; return -1; }
     if (!M.find((uintptr_t) a)) { errno = ENOMEM; return -1; }
-    return lock_outcome();
+    int rc = lock_outcome();
+    return rc;
 }
 long h_sysconf(int name) { return name == _SC_PAGESIZE ? (long) M.P : simos_real_sysconf(name); }
 
@@ -191,8 +193,8 @@ bool probe_write(uintptr_t a, unsigned char v) {
 }
 
 // ---------------- plan ----------------
-enum OpKind { O_MALLOC = 0, O_ALLOCARRAY, O_NOACCESS, O_READONLY, O_READWRITE, O_PROBE, O_WRITE, O_TAMPER, O_FREE, O_FREE_NULL, O_NKINDS };
-const char *op_name[O_NKINDS] = {"malloc", "allocarray", "noaccess", "readonly", "readwrite", "probe", "write", "tamper", "free", "free_null"};
+enum OpKind { O_MALLOC = 0, O_ALLOCARRAY, O_NOACCESS, O_READONLY, O_READWRITE, O_PROBE, O_WRITE, O_TAMPER, O_FREE, O_FREE_NULL, O_FORK, O_NKINDS };
+const char *op_name[O_NKINDS] = {"malloc", "allocarray", "noaccess", "readonly", "readwrite", "probe", "write", "tamper", "free", "free_null", "fork_and_free_in_child"};
 enum { PR_RW = 0, PR_RO = 1, PR_NONE = 2 };
 const char *prot_name[3] = {"readwrite", "readonly", "noaccess"};
 
@@ -442,6 +444,37 @@ struct Exec {
         cross_check("after-free");
     }
 
+    // fork(): the child inherits every guarded allocation; contents, canaries and protections must be what they were,
+    // and freeing each of them in the child must work exactly as in the parent
+    void do_fork() {
+        fflush(stdout); fflush(stderr);
+        pid_t pid = fork();
+        if (pid == 0) {
+            for (auto &al : live) {
+                if (al.prot == PR_NONE) continue;
+                for (size_t i = 0; i < al.size; i += (al.size > 4096 ? 97 : 1)) {
+                    unsigned char v = 0;
+                    if (!probe_read(al.p + i, &v) || v != al.shadow[i]) _exit(10);
+                }
+            }
+            for (auto &al : live) {
+                bool expect_term = !al.canary_ok;
+                if (sigsetjmp(g_term_env, 1) == 0) { g_term_armed = 1; simos_enter(); sodium_free((void *) al.p); simos_leave(); g_term_armed = 0; if (expect_term) _exit(12); }
+                else { g_term_armed = 0; simos_reset_thread(); if (!expect_term) _exit(11); }
+            }
+            _exit(0);
+        }
+        int st = 0;
+        waitpid(pid, &st, 0);
+        res.count("fault.fork");
+        dg.add((uint64_t) st);
+        if (WIFEXITED(st) && WEXITSTATUS(st) == 0) { res.count("probe.child_after_fork_ok"); return; }
+        if (WIFEXITED(st) && WEXITSTATUS(st) == 10) res.fail("contents-lost-after-fork", "fork", "a guarded allocation's contents differ in the child after fork()", step);
+        else if (WIFEXITED(st) && WEXITSTATUS(st) == 11) res.fail("free-terminated-after-fork", "fork", "sodium_free() of an intact guarded allocation terminated the child after fork()", step);
+        else if (WIFEXITED(st) && WEXITSTATUS(st) == 12) res.fail("underflow-not-detected", "fork", "a tampered allocation was freed normally in the child after fork()", step);
+        else res.fail("crash", "fork-child", "the child crashed using/freeing inherited guarded allocations (status " + std::to_string(st) + ")", step);
+    }
+
     Result run() {
         M.lock_policy = plan.lock_policy;
         g_signal_ignored = plan.signal_ignored;
@@ -460,6 +493,7 @@ struct Exec {
             case O_TAMPER: do_tamper(op); break;
             case O_FREE: do_free(op); break;
             case O_FREE_NULL: { LibScope l; sodium_free(nullptr); break; }
+            case O_FORK: if (!live.empty()) do_fork(); break;
             }
             res.steps++;
         }
@@ -573,7 +607,8 @@ struct C17 {
             else if (c < 70) op.kind = O_PROBE;
             else if (c < 78) op.kind = O_WRITE;
             else if (c < 84) op.kind = O_TAMPER;
-            else if (c < 98) op.kind = O_FREE;
+            else if (c < 96) op.kind = O_FREE;
+            else if (c < 98) op.kind = O_FORK;
             else op.kind = O_FREE_NULL;
             p.ops.push_back(op);
         }
@@ -589,7 +624,7 @@ struct C17 {
             q["op"] = op_name[o.kind];
             if (o.kind == O_MALLOC) q["size"] = o.size;
             else if (o.kind == O_ALLOCARRAY) { q["count"] = o.count; q["size"] = o.size; }
-            else if (o.kind != O_FREE_NULL) { q["i"] = o.idx; if (o.kind == O_PROBE || o.kind == O_WRITE || o.kind == O_TAMPER || o.kind <= O_READWRITE) { q["a"] = o.a; q["b"] = o.b; } }
+            else if (o.kind != O_FREE_NULL && o.kind != O_FORK) { q["i"] = o.idx; if (o.kind == O_PROBE || o.kind == O_WRITE || o.kind == O_TAMPER || o.kind <= O_READWRITE) { q["a"] = o.a; q["b"] = o.b; } }
             ops.push(q);
         }
         j["ops"] = ops;
